@@ -28,6 +28,11 @@ CHECKS['C08'] = ('4.C08', 'The complete hook sequence start / apply / success / 
                  'truthful, properly nested) for grammars of named rules over symbolic sub-rules, for controls with and without unwind(), with none / void / bool vetoing or throwing actions, '
                  'including exceptions from must-rules, sub-rules and actions and their conversion by try_catch rules; balance of whole runs follows by induction over frames.')
 
+CHECKS['C05'] = ('4.C05', 'Rules of the must / raise / try_catch families (return_false and raise_nested, typed, any, std, default), nested in predicates, repetitions and choices, plus must_if<> '
+                 'controls, are proved against the reference semantics over symbolic sub-rules that fail after consuming, raise or throw foreign exceptions: identity of the first blamed rule, '
+                 'position within [start of attempt, furthest point], byte/line/column consistency, unchanged propagation, exact conversion with cursor restore. Not claimed: parse_error '
+                 'message/what() formatting and std::throw_with_nested (libstdc++ string/stream internals cannot be encoded).')
+
 NOT_YET = {}
 
 
